@@ -231,6 +231,34 @@ def resolve_upvars(prog, body, labels, depth=0):
     return out
 
 
+def expand_fn_labels(prog, labels, depth=2):
+    """Like expand_closure_labels, but also looks into workspace functions named in `call:` labels (a predicate moved into a helper still
+    reads what it read), to the given call depth, including the closures those functions build."""
+    out = set(labels)
+    frontier = {l.split(":", 1)[1] for l in labels if l.startswith(("call:", "closure:"))}
+    seen = set()
+    for _ in range(depth + 1):
+        nxt = set()
+        for k in frontier:
+            if k in seen:
+                continue
+            seen.add(k)
+            cb = prog.get(k)
+            if cb is None:
+                continue
+            for fb in prog.with_closures(cb):
+                for c in prog.callgraph.get(fb.nkey, ()):
+                    out.add("call:" + c)
+                    nxt.add(c)
+                for s in fb.sites():
+                    for pl in fb.places_read(fb.at(s)):
+                        for p in pl.get("p", []):
+                            if p.startswith("F:"):
+                                out.add("field:" + norm(p[2:]))
+        frontier = nxt
+    return out
+
+
 def expand_closure_labels(prog, labels):
     """Add callees and fields read by closures named in `call:`/`closure:` labels (a closure runs where it is passed)."""
     out = set(labels)
